@@ -162,6 +162,13 @@ var errOut = errors.New("scripted output failure")
 
 func (w *memWriter) Write(p []byte) (int, error) {
 	rr := w.rr
+	if raceMode {
+		w.n++ // only ever called from the container goroutine
+		if w.failAt > 0 && w.n >= w.failAt {
+			return 0, errOut
+		}
+		return len(p), nil
+	}
 	t0 := tick()
 	rr.mu.Lock()
 	w.n++
@@ -185,6 +192,9 @@ type lockedBuf struct {
 }
 
 func (l lockedBuf) Write(p []byte) (int, error) {
+	if raceMode {
+		return len(p), nil
+	}
 	tick()
 	l.rr.mu.Lock()
 	l.rr.debug.Write(p)
@@ -402,7 +412,13 @@ func (f *failingFiller) Fill(w io.Writer, st decor.Statistics) error {
 func (rr *runRec) barOptions(bi int) (mpb.BarFiller, []mpb.BarOption) {
 	spec := rr.sc.Bars[bi]
 	marker := decor.Any(func(s decor.Statistics) string {
-		k := atomic.AddInt64(&rr.renderK[bi], 1)
+		var k int64
+		if raceMode {
+			rr.renderK[bi]++ // ordered by the library's own hand-overs; no harness atomics in the race tier
+			k = rr.renderK[bi]
+		} else {
+			k = atomic.AddInt64(&rr.renderK[bi], 1)
+		}
 		return fmt.Sprintf("<%d|%d/%d|C%dA%d|%d>", s.ID, s.Current, s.Total, b2i(s.Completed), b2i(s.Aborted), k)
 	})
 	pre := []decor.Decorator{marker}
@@ -472,6 +488,9 @@ func (rr *runRec) barOptions(bi int) (mpb.BarFiller, []mpb.BarOption) {
 // ---------------------------------------------------------------- client ops
 
 func (rr *runRec) record(client, idx int, op Op) int {
+	if raceMode {
+		return -1
+	}
 	rr.mu.Lock()
 	rr.hist = append(rr.hist, OpRec{Client: client, Idx: idx, Op: op})
 	i := len(rr.hist) - 1
@@ -484,6 +503,9 @@ func (rr *runRec) record(client, idx int, op Op) int {
 }
 
 func (rr *runRec) finish(i int, res string, skipped bool) {
+	if i < 0 {
+		return
+	}
 	t := tick()
 	rr.mu.Lock()
 	rr.hist[i].Ret = t
@@ -588,7 +610,10 @@ func (rr *runRec) doOp(client, idx int, op Op) {
 		// refresh and wait until that render cycle is over (deterministic manual mode)
 		n0 := hk.counts[hpRenderEnd].Load()
 		if rr.refresh() {
-			if waitCount(hpRenderEnd, n0+1, 2*time.Second) {
+			if raceMode {
+				time.Sleep(300 * time.Microsecond)
+				res = "taken"
+			} else if waitCount(hpRenderEnd, n0+1, 2*time.Second) {
 				res = "rendered"
 			} else {
 				res = "taken"
@@ -607,6 +632,10 @@ func (rr *runRec) doOp(client, idx int, op Op) {
 	case "release":
 		rr.releaseDelay()
 	case "waitcycles":
+		if raceMode {
+			time.Sleep(time.Duration(op.N) * 300 * time.Microsecond)
+			break
+		}
 		n0 := hk.counts[hpRenderEnd].Load()
 		waitCount(hpRenderEnd, n0+op.N, 200*time.Millisecond)
 	case "prio":
@@ -618,9 +647,8 @@ func (rr *runRec) doOp(client, idx int, op Op) {
 	case "barwait":
 		b.Wait()
 	case "traverse":
-		n := 0
-		b.TraverseDecorators(func(decor.Decorator) { n++ })
-		res = fmt.Sprint(n)
+		// the callback runs in the bar's goroutine, possibly after TraverseDecorators returned
+		b.TraverseDecorators(func(decor.Decorator) {})
 	case "proxyread":
 		if pr := b.ProxyReader(strings.NewReader(strings.Repeat("x", int(op.N)))); pr != nil {
 			n, _ := io.Copy(io.Discard, pr)
@@ -781,12 +809,7 @@ func (rr *runRec) execute() {
 			if sc.Anchor && i == 0 {
 				continue // finished once every client is done (keeps the wait group above zero)
 			}
-			for _, op := range (&gen{}).finishOp(i, spec) {
-				if b.Completed() || b.Aborted() {
-					break
-				}
-				rr.doOp(-1, 1000+i, op)
-			}
+			rr.finishBar(i, b, spec)
 		}
 		for k := 0; k < sc.FinalRefr; k++ {
 			rr.doOp(-1, 2000+k, Op{K: "refresh"})
@@ -804,9 +827,7 @@ func (rr *runRec) execute() {
 		go func() {
 			cwg.Wait()
 			if b := rr.bar(0); b != nil {
-				for _, op := range (&gen{}).finishOp(0, sc.Bars[0]) {
-					rr.doOp(-1, 1000, op)
-				}
+				rr.finishBar(0, b, sc.Bars[0])
 			}
 			rr.markAllTerminal()
 		}()
@@ -823,6 +844,26 @@ func (rr *runRec) execute() {
 		joinClients()
 	}
 	rr.afterWait()
+}
+
+// finishBar drives a bar to a terminal state: the spec's own finishing call
+// first; if the clients' operations made that call a no-op (e.g. SetTotal is
+// ignored once triggering is enabled), a completing SetCurrent, then Abort.
+func (rr *runRec) finishBar(i int, b *mpb.Bar, spec BarSpec) {
+	term := func() bool { return b.Completed() || b.Aborted() }
+	for _, op := range (&gen{}).finishOp(i, spec) {
+		if term() {
+			return
+		}
+		rr.doOp(-1, 1000+i, op)
+	}
+	if spec.Finish == "none" || term() {
+		return
+	}
+	rr.doOp(-1, 1000+i, Op{K: "setcur", B: i, N: 1 << 62})
+	if !term() {
+		rr.doOp(-1, 1000+i, Op{K: "abort", B: i})
+	}
 }
 
 // markAllTerminal: from here on every bar has been driven to a terminal state
